@@ -94,7 +94,7 @@ func NoOut() M {
 	return M{"class": "none", "status": 0, "err": "none", "doc": false, "req": "none", "target": "none", "channel": "none",
 		"state": "none", "code": "none", "at": noTok(), "rt": noRt(), "idt": noIdt(), "scope": []string{}, "sub": "none",
 		"rotated": "none", "bare": true, "dc": "none", "uc": "none", "journal": []string{}, "issuedType": "", "actor": "none",
-		"auth": "none", "expiresOff": 0}
+		"auth": "none", "expiresOff": 0, "faulted": false}
 }
 
 // ------------------------------------------------------------ helpers on generic args
@@ -208,6 +208,9 @@ func (d *Driver) applyCred(form url.Values, hdr http.Header, caller string, cred
 		form.Set("client_id", caller)
 	case "basic":
 		hdr.Set("Authorization", "Basic "+base64.StdEncoding.EncodeToString([]byte(url.QueryEscape(caller)+":"+url.QueryEscape(secret))))
+		if alias := S(cred, "alias"); alias != "" {
+			form.Set("client_id", alias) // the request names a second client in the body
+		}
 	case "post":
 		form.Set("client_id", caller)
 		form.Set("client_secret", secret)
@@ -816,8 +819,19 @@ func (d *Driver) Exec(opName string, a M) M {
 	out := NoOut()
 	d.Store.ResetJournal()
 	d.LastRaw = nil
+	if f := S(a, "fault"); f != "" {
+		// fault plan: every call of storage method f made while serving this operation fails
+		d.Store.SetFault(0, f, "error")
+	}
 	defer func() {
-		out["journal"] = d.journalNames(d.Store.TakeJournal())
+		d.Store.SetFault(0, "", "")
+		j := d.Store.TakeJournal()
+		for _, e := range j {
+			if e.Err == modelstore.ErrInjected.Error() || e.Err == context.DeadlineExceeded.Error() {
+				out["faulted"] = true
+			}
+		}
+		out["journal"] = d.journalNames(j)
 	}()
 	switch opName {
 	case "Authorize":
